@@ -1,10 +1,11 @@
 //! `solve` — runs the real chalk solvers on (program text, goal texts) cases.
 //!
 //! Interface: /verif/tools/LOGIC_INTERFACE.md.  One S-expression case per stdin line, one
-//! result line per case.  Every goal (or, in `History` mode, every history) runs in a forked
-//! child with a CPU limit, an address-space limit and its own thread stack, because the
-//! unchanged solvers can run for 2^30 steps (DESIGN N5) or overflow the native stack (F13):
-//! a dying child becomes `Timeout` / `(Abort "...")` for exactly that goal.
+//! result line per case.  The goals of a case run in a forked child with a per-goal CPU limit,
+//! an address-space limit and its own thread stack, because the unchanged solvers can run for
+//! 2^30 steps (DESIGN N5) or overflow the native stack (F13): when the child dies, the goal it
+//! was working on becomes `Timeout` / `(Abort "...")` and a new child resumes with the next
+//! goal (in `History` mode the remaining goals are `Skipped`).
 //!
 //!   case   ::= (Case "<program>" ["<goal>" ...] <solver> <mode> [<opt> ...])
 //!   solver ::= Slg | (SlgWith max_size) | Rec | (RecWith overflow_depth caching max_size)
@@ -483,61 +484,55 @@ fn run_case(case: &Sexp) -> Result<Sexp, String> {
             }
         }
     }
-    // lowering (and the optional dump) in a child as well: the parser/lowering may panic (C24)
-    let (lines, end) = in_child(&cfg, |emit| {
-        let r = guarded(|| match load(&cfg, &text) {
-            Err(e) => Sexp::App("ProgramError".into(), vec![Sexp::Str(e)]),
-            Ok((_db, p)) => if cfg.dump { tls::set_current_program(&p, || dump_program(&p)) } else { Sexp::atom("NoDump") },
-        });
-        emit(match r { Ok(s) => s.to_string(), Err(m) => Sexp::App("ProgramError".into(), vec![Sexp::Str(format!("panic: {}", m))]).to_string() });
-    });
-    let head = match lines.first() {
-        Some(l) => parse(l)?,
-        None => return Ok(Sexp::App("ProgramError".into(), vec![Sexp::Str(format!("lowering died: {}", end_sexp(&end)))])),
-    };
-    if head.head() == Some("ProgramError") { return Ok(head); }
-
-    // the parent loads the program once (the child above has shown that this is safe);
-    // every goal then runs in a fork of this process and inherits the lowered program.
-    let (db, p) = match guarded(|| load(&cfg, &text)) {
-        Ok(Ok(x)) => x,
-        Ok(Err(e)) => return Ok(Sexp::App("ProgramError".into(), vec![Sexp::Str(e)])),
-        Err(m) => return Ok(Sexp::App("ProgramError".into(), vec![Sexp::Str(format!("panic: {}", m))])),
-    };
+    // One child handles as many goals as it survives: it lowers the program (the parser /
+    // lowering may panic or overflow, C24), emits the head line (dump) and then one line per
+    // goal.  When it dies, the goal it was working on gets Timeout/Abort and a new child
+    // resumes with the next goal (History: the rest of the history is Skipped).
     let n = goals.len();
     let mut results: Vec<Sexp> = Vec::with_capacity(n);
-    match cfg.mode {
-        Mode::History => {
-            let (lines, end) = in_child(&cfg, |emit| {
-                tls::set_current_program(&p, || {
-                    let mut solver = cfg.solver.into_solver();
-                    for g in &goals {
-                        set_cpu_limit(cfg.cpu);
-                        emit(solve_one(&db, &p, &mut solver, &cfg.mode, g).to_string());
-                    }
-                });
-            });
-            for l in &lines { results.push(parse(l)?); }
-            if results.len() < n {
-                results.push(Sexp::App("R".into(), vec![Sexp::List(vec![]), end_sexp(&end)]));
-                while results.len() < n { results.push(Sexp::App("R".into(), vec![Sexp::List(vec![]), Sexp::atom("Skipped")])); }
-            }
-        }
-        _ => {
-            for g in &goals {
-                let (lines, end) = in_child(&cfg, |emit| {
-                    tls::set_current_program(&p, || {
+    let mut head: Option<Sexp> = None;
+    let history = matches!(cfg.mode, Mode::History);
+    loop {
+        let start = results.len();
+        let want_dump = cfg.dump && head.is_none();
+        let (lines, end) = in_child(&cfg, |emit| {
+            let loaded = guarded(|| load(&cfg, &text));
+            let (db, p) = match loaded {
+                Ok(Ok(x)) => x,
+                Ok(Err(e)) => { emit(Sexp::App("ProgramError".into(), vec![Sexp::Str(e)]).to_string()); return; }
+                Err(m) => { emit(Sexp::App("ProgramError".into(), vec![Sexp::Str(format!("panic: {}", m))]).to_string()); return; }
+            };
+            tls::set_current_program(&p, || {
+                let h = if want_dump { guarded(|| dump_program(&p)).unwrap_or_else(|m| Sexp::App("DumpPanic".into(), vec![Sexp::Str(m)])) } else { Sexp::atom("NoDump") };
+                emit(h.to_string());
+                let mut shared = cfg.solver.into_solver();
+                for g in &goals[start..] {
+                    set_cpu_limit(cfg.cpu);
+                    if history {
+                        emit(solve_one(&db, &p, &mut shared, &cfg.mode, g).to_string());
+                    } else {
                         let mut solver = cfg.solver.into_solver();
                         emit(solve_one(&db, &p, &mut solver, &cfg.mode, g).to_string());
-                    });
-                });
-                match lines.first() {
-                    Some(l) => results.push(parse(l)?),
-                    None => results.push(Sexp::App("R".into(), vec![Sexp::List(vec![]), end_sexp(&end)])),
+                    }
                 }
-            }
+            });
+        });
+        let first = match lines.first() {
+            Some(l) => parse(l)?,
+            None => return Ok(Sexp::App("ProgramError".into(), vec![Sexp::Str(format!("lowering died: {}", end_sexp(&end)))])),
+        };
+        if first.head() == Some("ProgramError") { return Ok(first); }
+        if head.is_none() { head = Some(first); }
+        for l in &lines[1..] { if results.len() < n { results.push(parse(l)?); } }
+        if results.len() >= n { break; }
+        // the child died while working on goal number results.len()
+        results.push(Sexp::App("R".into(), vec![Sexp::List(vec![]), end_sexp(&end)]));
+        if history {
+            while results.len() < n { results.push(Sexp::App("R".into(), vec![Sexp::List(vec![]), Sexp::atom("Skipped")])); }
         }
+        if results.len() >= n { break; }
     }
+    let head = head.unwrap_or(Sexp::atom("NoDump"));
     Ok(Sexp::App("Result".into(), vec![head, Sexp::List(results)]))
 }
 
